@@ -205,7 +205,13 @@ func decodeType(fold []byte, state *stateDecode) (*decoder, []byte, error) {
 				return value, packet, nil
 			}
 
-			if n > len(packet) {
+			if zeroSize := decKey.Type.Size() == 0 && decValue.Type.Size() == 0; zeroSize {
+				// a zero-size key type has a single value: at most one entry,
+				// and it takes no bytes on the wire
+				if n > 1 {
+					return nil, nil, fmt.Errorf("incorrect data length")
+				}
+			} else if n > len(packet) {
 				return nil, nil, fmt.Errorf("incorrect data length")
 			}
 
@@ -298,6 +304,18 @@ func decodeType(fold []byte, state *stateDecode) (*decoder, []byte, error) {
 				return value, packet, nil
 			}
 
+			if decItem.Type.Size() == 0 {
+				// zero-size items ([0]T, empty struct) take no bytes on the wire
+				// and have a single value: nothing to decode
+				x := reflect.MakeSlice(vtype, n, n)
+				if value == nil {
+					value = &x
+				} else {
+					value.Set(x)
+				}
+				return value, packet, nil
+			}
+
 			if n > len(packet) {
 				return nil, nil, fmt.Errorf("incorrect data length")
 			}
@@ -357,7 +375,8 @@ func decodeType(fold []byte, state *stateDecode) (*decoder, []byte, error) {
 
 		fdec := func(value *reflect.Value, packet []byte, state *stateDecode) (*reflect.Value, []byte, error) {
 			if len(packet) == 0 {
-				if n == 0 {
+				if vtype.Size() == 0 {
+					// no items, or zero-size items: nothing on the wire
 					return value, packet, nil
 				}
 				return nil, nil, errDecodeEOD
